@@ -384,6 +384,35 @@ pub fn check_case(case: &Case) -> CheckResult {
     r
 }
 
+/// order-free canonical JSON of a validate() result (serde_json maps are sorted)
+fn canonical_json(out: &Output) -> String {
+    let v: Vec<serde_json::Value> = out
+        .0
+        .iter()
+        .map(|(id, tag, ast, diags)| json!({"id": id, "tag": tag, "ast": serde_json::to_value(ast).unwrap_or(json!(null)), "diagnostics": serde_json::to_value(diags).unwrap_or(json!(null))}))
+        .collect();
+    serde_json::Value::Array(v).to_string()
+}
+
+/// child-process mode: print one digest line per project (insertion order and base key from argv)
+pub fn run_proc(base: u64, reverse: bool) -> i32 {
+    for proj in projects() {
+        if !proj.dup_ids.is_empty() {
+            continue;
+        }
+        let files: Vec<(String, String)> = proj.files.iter().map(|(a, b)| (a.to_string(), b.to_string())).collect();
+        let mut order: Vec<usize> = (0..files.len()).collect();
+        if reverse {
+            order.reverse();
+        }
+        match execute(build_ops(&files, &order, false), base, 2) {
+            Ok(runs) => println!("{}\t{:016x}", proj.name, fnv(&canonical_json(&runs.last().unwrap().output))),
+            Err(e) => println!("{}\tPANIC {e}", proj.name),
+        }
+    }
+    0
+}
+
 fn factorial(n: usize) -> usize {
     (1..=n).product()
 }
@@ -394,7 +423,7 @@ pub fn run(tier: Tier, seed: u64) -> i32 {
         return 2;
     }
     let stats = Stats::new(PROP, tier, seed);
-    let (max_orders, outer, inner) = tier.pick((6, 96, 48), (24, 256, 256));
+    let (max_orders, outer, inner) = tier.pick((6, 96, 48), (24, 160, 128));
     let projs = projects();
     let projs = if tier == Tier::Quick { projs } else { projs };
     let coverage_rows: Mutex<Vec<serde_json::Value>> = Mutex::new(Vec::new());
@@ -492,7 +521,8 @@ pub fn run(tier: Tier, seed: u64) -> i32 {
             closed = cover
                 .iter()
                 .all(|((_, keys), seen)| keys.len() < 2 || keys.len() > 4 || seen.len() >= factorial(keys.len()));
-            if closed && round >= 1 {
+            // quick stops once closed; thorough keeps enumerating seeds (joint order tuples)
+            if closed && round >= 1 && tier == Tier::Quick {
                 break 'sweep;
             }
         }
@@ -518,6 +548,59 @@ pub fn run(tier: Tier, seed: u64) -> i32 {
             "sites": sites,
         }));
     });
+    // other processes: the same projects validated in child processes (own address space, own
+    // seeds) must give the same canonical output as in this process
+    {
+        let exe = std::env::current_exe().expect("exe");
+        let mut mine: BTreeMap<String, String> = BTreeMap::new();
+        for proj in projs.iter().filter(|p| p.dup_ids.is_empty()) {
+            let files: Vec<(String, String)> = proj.files.iter().map(|(a, b)| (a.to_string(), b.to_string())).collect();
+            let order: Vec<usize> = (0..files.len()).collect();
+            if let Ok(runs) = execute(build_ops(&files, &order, false), 7, 0) {
+                mine.insert(proj.name.to_string(), format!("{:016x}", fnv(&canonical_json(&runs[0].output))));
+            }
+        }
+        let nproc = tier.pick(4, 16);
+        let mut compared = 0;
+        for k in 0..nproc {
+            let out = std::process::Command::new(&exe)
+                .arg("C11-proc")
+                .arg(format!("{}", 1000 + k))
+                .arg(if k % 2 == 0 { "fwd" } else { "rev" })
+                .output();
+            let out = match out {
+                Ok(o) => String::from_utf8_lossy(&o.stdout).to_string(),
+                Err(e) => {
+                    eprintln!("MACHINERY: cannot start child process: {e}");
+                    return 2;
+                }
+            };
+            for line in out.lines() {
+                if let Some((name, digest)) = line.split_once('\t') {
+                    compared += 1;
+                    stats.case_done(1);
+                    if mine.get(name).map(|d| d.as_str()) != Some(digest) {
+                        let proj = projs.iter().find(|p| p.name == name);
+                        let files: Vec<(String, String)> = proj.map(|p| p.files.iter().map(|(a, b)| (a.to_string(), b.to_string())).collect()).unwrap_or_default();
+                        let n = files.len();
+                        let ord: Vec<usize> = if k % 2 == 0 { (0..n).collect() } else { (0..n).rev().collect() };
+                        stats.violation(Violation {
+                            case: Case {
+                                prop: PROP.into(),
+                                kind: name.into(),
+                                label: format!("project {name} in child process {k}"),
+                                files,
+                                expect: json!({"a": {"order": (0..n).collect::<Vec<_>>(), "replaced": false, "base": 7, "inner": 0}, "b": {"order": ord, "replaced": false, "base": 1000 + k, "inner": 2}, "dup_ids": []}),
+                            },
+                            message: format!("validate() output in another process differs ({digest} vs {:?})", mine.get(name)),
+                            finding_key: None,
+                        });
+                    }
+                }
+            }
+        }
+        stats.set("other_process_comparisons", json!(compared));
+    }
     for row in coverage_rows.lock().unwrap().iter() {
         stats.space(row.clone());
     }
